@@ -62,6 +62,15 @@ def input_trees(r):
                                     F("src/plain", 100, 10)], ["--block-size", "64KB", "-r", "src", "dst"])
     out["noclobber-collision"] = ([D("src")] + [F("src/f%d" % i, 100, i + 1) for i in range(30)] + [D("dst"), D("dst/src"), F("dst/src/f29", 5, 99)],
                                   ["-n", "-r", "src", "dst"])
+    # a destination left by an earlier run in which entries had other kinds (an earlier -L run turned links into directories and
+    # files; a file became a directory; ...): whatever is done about the mismatch, it has to end
+    older = [D("dst"), D("dst/src"), D("dst/src/ld"), F("dst/src/ld/x", 3, 7), F("dst/src/lf", 4, 8), D("dst/src/plain"), F("dst/src/plain/y", 2, 9),
+             D("dst/src/ff"), {"p": "dst/src/ss", "k": "l", "target": "nowhere"}, {"p": "dst/src/sub", "k": "l", "target": "ld"}]
+    newer = [D("src"), D("src/real"), F("src/real/x", 3, 7), {"p": "src/ld", "k": "l", "target": "real"}, {"p": "src/lf", "k": "l", "target": "real/x"},
+             F("src/plain", 50, 3), {"p": "src/ff", "k": "fifo"}, {"p": "src/ss", "k": "sock"}, D("src/sub"), F("src/sub/z", 9, 4)]
+    out["kinds-changed-since-last-copy"] = (newer + older, ["-r", "src", "dst"])
+    out["links-onto-directories"] = ([D("src"), D("src/real"), F("src/real/x", 3, 7)] + [{"p": "src/l%d" % i, "k": "l", "target": "real"} for i in range(6)] + [F("src/f%d" % i, 100, i + 1) for i in range(20)]
+                                     + [D("dst"), D("dst/src")] + [D("dst/src/l%d" % i) for i in range(6)], ["-r", "src", "dst"])
     out["block-device"] = ([D("src")] + [F("src/f%d" % i, 100, i + 1) for i in range(20)] + [{"p": "src/zblk", "k": "blk", "rdev": [7, 99]}], ["-r", "src", "dst"])
     # every worker dies early (failure on the special-file path sends no Error update) while hundreds of operations remain to be queued
     lots = [D("src2")] + [F("src2/f%03d" % i, 10, i + 1) for i in range(400)]
